@@ -6,9 +6,33 @@
 #include <malloc.h>
 long vf_count = 0, vf_fail_at = -1, vf_live = 0, vf_live_bytes = 0, vf_moved = 0;
 const char *vf_fail_fn = "", *vf_fail_ex = "";
+#if defined(__SANITIZE_ADDRESS__)
+/* the failing site = the nearest caller frames outside the generic helpers (bstr.c, htp_list.c, htp_table.c), symbolised by
+ * the sanitizer runtime: stable under line shifts, specific enough to key a known finding */
+extern void __sanitizer_symbolize_pc(void *pc, const char *fmt, char *out_buf, unsigned long out_buf_size);
+static char site_buf[256];
+static int generic(const char *f) { return !strncmp(f, "bstr_", 5) || !strncmp(f, "htp_list_", 9) || !strncmp(f, "htp_table_add", 13) || !strncmp(f, "_htp_table_add", 14) || !strncmp(f, "vf_", 3) || !strcmp(f, "tick") || !strcmp(f, "site"); }
+#include <execinfo.h>
+static const char *site(const char *fn) {
+    void *pcs[12];
+    int depth = backtrace(pcs, 12);
+    size_t n = 0; int kept = 0;
+    site_buf[0] = 0;
+    for (int i = 0; i < depth && kept < 2; i++) {
+        char f[96] = "";
+        __sanitizer_symbolize_pc((char *) pcs[i] - 1, "%f", f, sizeof f);
+        if (f[0] == 0 || f[0] == '<' || (f[0] == '_' && f[1] == '_') || generic(f) || !strcmp(f, "main") || !strcmp(f, "run_scenario")) continue;
+        n += (size_t) snprintf(site_buf + n, sizeof site_buf - n, kept ? "<%s" : "%s", f);
+        kept++;
+    }
+    return kept ? site_buf : fn;
+}
+#else
+static const char *site(const char *fn) { return fn; }
+#endif
 static int tick(const char *fn, const char *ex) {
     vf_count++;
-    if (vf_count == vf_fail_at) { vf_fail_fn = fn; vf_fail_ex = ex; return 1; }
+    if (vf_count == vf_fail_at) { vf_fail_fn = site(fn); vf_fail_ex = ex; return 1; }
     return 0;
 }
 static void *in(void *p) { if (p) { vf_live++; vf_live_bytes += (long) malloc_usable_size(p); } return p; }
